@@ -9,6 +9,8 @@ Ltac dmatch :=
          | |- context [match ?x with _ => _ end] => destruct x eqn:?
          | |- context [if ?x then _ else _] => destruct x eqn:?
          end.
+(* robustness: a regenerated term that makes a tactic run away fails the proof (prove BROKEN) instead of hanging the build *)
+Set Default Timeout 300.
 
 (* ---------- a rejected (or out-of-domain) call leaves the whole state unchanged ---------- *)
 Lemma rejected_call_is_identity k s o s' :
